@@ -28,7 +28,10 @@ def run(ctx):
     recs = []
     words = ["a", "b", "c"]
 
-    def rnd_tree(d, prefix):
+    # a word that merely BEGINS with the letters of the vendor's negation word is an ordinary word
+    PX = {"undo": "undox", "no": "node"}
+
+    def rnd_tree(d, prefix, words=words):
         t = []
         if d == 0:
             return t
@@ -42,7 +45,7 @@ def run(ctx):
             if tuple(row) in seen:
                 continue
             seen.add(tuple(row))
-            t.append({"row": row, "kids": rnd_tree(d - 1, prefix)})
+            t.append({"row": row, "kids": rnd_tree(d - 1, prefix, words)})
         return t
 
     def observe_filter(tag, vendor, prefix, acl, tj):
@@ -87,11 +90,28 @@ def run(ctx):
     n1 = 2500 if quick else 40000
     for k in range(n1):
         vendor, prefix = rnd.choice([("huawei", "undo"), ("cisco", "no")])
-        acl = aclgen.random_acl(rnd, words, prefix)
-        observe_filter("rnd", vendor, prefix, acl, rnd_tree(3, prefix))
+        wd = words + [PX[prefix]] if k % 3 == 0 else words
+        acl = aclgen.random_acl(rnd, wd, prefix)
+        observe_filter("rnd", vendor, prefix, acl, rnd_tree(3, prefix, wd))
         if k % 2 == 0:
-            observe_merge("mrg", vendor, prefix, aclgen.random_acl(rnd, words, prefix, gen="A"), aclgen.random_acl(rnd, words, prefix, gen="B"),
-                          rnd_tree(3, prefix))
+            observe_merge("mrg", vendor, prefix, aclgen.random_acl(rnd, wd, prefix, gen="A"), aclgen.random_acl(rnd, wd, prefix, gen="B"),
+                          rnd_tree(3, prefix, wd))
+    # targeted: a rule on such a word, and in the tree both the plain line and its negated form (`no node 2` is covered by `node *`)
+    for k in range(40 if quick else 400):
+        vendor, prefix = rnd.choice([("huawei", "undo"), ("cisco", "no")])
+        px = PX[prefix]
+        tail = rnd.choice([[{"t": "star"}], [{"t": "tilde"}], [aclgen.lit("a"), {"t": "star"}]])
+        acl = [aclgen.mk([aclgen.lit(px)] + tail, [], False, rnd.choice([None, False]), "g")] + aclgen.random_acl(rnd, words, prefix, 2)
+        rows = [[px] + [rnd.choice(words) for _ in range(len(tail))], [prefix, px] + [rnd.choice(words) for _ in range(len(tail))]]
+        if tail[0].get("w") == "a":
+            rows = [[px, "a", "b"], [prefix, px, "a", "c"]]
+        t = rnd_tree(2, prefix) + [{"row": r, "kids": []} for r in rows]
+        seen, t2 = set(), []
+        for n in t:
+            if tuple(n["row"]) not in seen:
+                seen.add(tuple(n["row"]))
+                t2.append(n)
+        observe_filter("px", vendor, prefix, acl, t2)
     # one row, several rules: specific and general rules, a %global one among them, a rule and the written-out negation of another
     for k in range(1500 if quick else 25000):
         vendor, prefix = rnd.choice([("huawei", "undo"), ("cisco", "no")])
